@@ -62,7 +62,8 @@ func c17Setup() {
 			_ = os.WriteFile(p, []byte(content), 0o644)
 			c17In2[content] = rel
 		}
-		r := rux.New()
+		// (a small route cache in front: the file handlers sit behind dynamic routes, so their matches are cached and evicted)
+		r := rux.New(rux.CachingWithNum(2))
 		r.StaticDir("/static2", root2)
 		r.StaticFiles("/assets2", root2, "css|js")
 		r.StaticDir("/static", c17Root)
@@ -123,6 +124,21 @@ func c17Gen(r *Rng, tier string, i int) Sx {
 				p = "../pub-private/key.txt"
 			}
 		}
+	}
+	if r.Chance(1, 6) {
+		// what reaches the file server must be the very text the route's pattern accepted: a captured value that is cut
+		// (at a control character, or at some length) may end in another extension
+		hidden := r.Pick([]string{"readme.md", "sub/page.html", "index.html", ".hidden", "src/theme.scss", "nodejs", "chart.js/private.md"})
+		switch r.Intn(3) {
+		case 0:
+			p = hidden + r.Pick([]string{"%0D", "%0A", "%00", "%09", "%20", ";", "%3F", "%23", "%0D%0A", "%5C"}) + r.Pick([]string{".js", ".css"})
+		default:
+			// the hidden name ends exactly at a round length of the captured value
+			limit := r.Pick2([]int{64, 127, 128, 255, 256, 512, 1024})
+			pad := limit - len(hidden)
+			p = strings.Repeat("./", pad/2) + strings.Repeat("/", pad%2) + hidden + r.Pick([]string{".js", ".css"})
+		}
+		return L(A("get"), A("files"), S("/"+p))
 	}
 	if other, ok := map[string]string{"dir": "dir2", "files": "files2", "dir2": "dir", "files2": "files"}[kind]; ok && r.Bool() {
 		// the same relative path has just been served by the registration over the other root
